@@ -974,6 +974,11 @@ def ablate(s: Schema, what: str) -> Schema:
                     fl.name = "plain_%d_%d" % (i, fl.number)
                 if fl.oneof:
                     fl.oneof = "grp_" + norm(fl.oneof)
+    elif what == "rpc-streaming":
+        for f in s.files:
+            for sv in f.services:
+                for me in sv.methods:
+                    me.client_streaming = me.server_streaming = False
     elif what == "services":
         for f in s.files:
             f.services = []
@@ -1001,7 +1006,7 @@ def ablate(s: Schema, what: str) -> Schema:
     return s
 
 
-ABLATIONS = ["comments-tricky", "comments-all", "builtin-type-names", "special-names", "services", "maps", "oneofs",
+ABLATIONS = ["comments-tricky", "comments-all", "builtin-type-names", "special-names", "rpc-streaming", "services", "maps", "oneofs",
              "optional", "repeated", "wkt", "enum-odd-numbers", "enum-fields", "message-fields"]
 
 
